@@ -132,7 +132,7 @@ func c15Prop(rt *rapid.T, rec *ev.Recorder) {
 		}
 		return out
 	}
-	nSteps := rapid.IntRange(5, 60).Draw(rt, "steps")
+	nSteps := rapid.IntRange(10, 120).Draw(rt, "steps")
 	for step := 0; step < nSteps; step++ {
 		switch rapid.SampledFrom([]string{"l1", "l1", "final", "final", "sync", "sync", "tick", "tick", "tick", "tick", "fault", "external"}).Draw(rt, "op") {
 		case "l1":
